@@ -1,4 +1,4 @@
-"""Rewrite rules R1..R15 (purely syntactic; every application is logged) and item emission."""
+"""Rewrite rules R1..R24 (purely syntactic; every application is logged) and item emission."""
 import re
 from lexer import lex, match_close, text_of, sig, Tok, OPEN, CLOSE, GenError
 from items import parse_items, strip_noise, Item
